@@ -89,6 +89,18 @@ var c11CuratedFamilies = []c11Family{
 		},
 		Roots: []c11Root{{Text: "@kid"}, {Text: "{ // {allOf: \"@kid\", additionalProperties: \"integer\"}\n  @key: 1\n}"}, {Text: "[@kid, @p1]"}},
 	},
+	{ // allOf expansions that fail half-way, in a type shared by several roots
+		Types: []lib.TypeDef{
+			{Name: "@obj", Text: "{\n  \"o\": 1\n}"},
+			{Name: "@str", Text: "\"s\""},
+			{Name: "@closed", Text: "{ // {additionalProperties: false}\n  \"c\": 1\n}"},
+			{Name: "@open", Text: "{ // {additionalProperties: \"float\"}\n  \"f\": 1\n}"},
+			{Name: "@bad1", Text: "{ // {allOf: [\"@obj\", \"@str\"]}\n  \"own\": true\n}"},
+			{Name: "@bad2", Text: "{} // {allOf: [\"@open\", \"@closed\"]}"},
+			{Name: "@bad3", Text: "{ // {allOf: [\"@obj\", \"@closed\", \"@nowhere\"]}\n  \"c\": 2\n}"},
+		},
+		Roots: []c11Root{{Text: "@bad1"}, {Text: "[@bad1]"}, {Text: "{\n  \"x\": @obj\n}"}},
+	},
 }
 
 var c11CuratedDocs = []c11Doc{
@@ -425,6 +437,9 @@ var c11ExhPools = []c11ExhPool{
 	{"or / unnamed types / recursion roots + a document", c11Pool{
 		Families: []c11Family{c11CuratedFamilies[2]},
 		Docs:     []c11Doc{{Text: `{"v": 1, "next": {"v": "ab"}}`}}}},
+	{"roots sharing types whose allOf expansion fails half-way + a document", c11Pool{
+		Families: []c11Family{{Types: c11CuratedFamilies[6].Types, Roots: c11CuratedFamilies[6].Roots[:2]}},
+		Docs:     []c11Doc{{Text: `{"o": 1, "own": true}`}}}},
 	{"two allOf parents, key shortcut roots + a trailing-characters document", c11Pool{
 		Families: []c11Family{{Types: c11CuratedFamilies[5].Types, Roots: c11CuratedFamilies[5].Roots[:2]}},
 		Docs:     []c11Doc{{Text: `{"p1": 1, "own": true, "kk2": 5} x`, Trailing: true}}}},
@@ -861,5 +876,11 @@ func c11ReplayHistory(raw json.RawMessage) string {
 	if err := json.Unmarshal(raw, &cs); err != nil {
 		return "bad replay: " + err.Error()
 	}
-	return c11Describe(c11RunHistory(&cs.Pool, cs.Ops, nil))
+	// a problem caused by map iteration order or pool state shows with some probability only
+	for k := 0; k < 40; k++ {
+		if pr := c11RunHistory(&cs.Pool, cs.Ops, nil); pr != nil {
+			return c11Describe(pr)
+		}
+	}
+	return c11Expected
 }
